@@ -41,4 +41,11 @@ CHECKS = {
    note="Trusted base: vf/ref/objective.py (+ align.py, intervals.py), numpy lstsq, NNLS by enumeration; harness megacomplexes with closed-form matrices. "
         "NNLS groups in the F13 regime are decided only when they equal the optimum or scipy's answer. Ambiguous interval/alignment cases are left to C08/C09.",
    technique="runtime monitoring: recorded objective evaluations of real optimisations checked against an independent reference objective"),
+ "C03": dict(category="exploration",
+   text="Every result dataset of short real optimisations over the C02 scheme space (+ adversarial dataset labels, both data layouts, non-square data, "
+        "partially shared aligned axes) is checked by coordinate label against the statement's identities and against the independent reference residual, clps "
+        "and matrices at the optimised parameters; unique ids in the data digits identify a residual that landed on a foreign coordinate. Sampling over "
+        "feature combinations x label pools is the right level for an unbounded space.",
+   note="Trusted base: vf/ref/objective.py, xarray .sel. Cases whose reference is ill-conditioned (kappa>1e8) or NNLS in the F13 regime are skipped and counted.",
+   technique="runtime monitoring: result-dataset oracle over real optimisations, label-keyed comparison with an independent reference, unique-id data"),
 }
